@@ -357,6 +357,21 @@ theorem search_requests_sum (av : Avail) (cur min : Nat) (t : Int) (m : Int) (hm
         simp only [List.length_cons, List.length_append, List.length_nil]
         omega
 
+/-- the ascent of `findBound` (minimum state missing): requests that hit an existing file ≤ ⌈log₂ upper⌉ + requests that hit
+    a missing file + 2 -/
+theorem findBound_requests (av : Avail) (t : Int) (f l u : Nat) (hl : 1 ≤ l) (hlu : l < u) :
+    countAv av (findBoundL av t f l u).2 ≤ clog u + countMiss av (findBoundL av t f l u).2 + 2 := by
+  have := findBoundL_requests av t f l u hl hlu
+  split at this <;> omega
+
+/-- **the whole lookup with the minimum state missing, as a sum**: 2·⌈log₂ cur⌉ + 2·(requests of the ascent that hit a
+    missing file) + 3·(missing files between the bounds it found) + 5 -/
+theorem search_requests_sum_min_missing (av : Avail) (cur min : Nat) (t : Int) (hmin : av min = none) (h1 : 1 < cur) :
+    (searchL av cur min t).2.length ≤
+      2 * clog cur + 2 * countMiss av (findBoundL av t (cur * cur + cur + 2) 1 cur).2 +
+        3 * missing av (findBoundL av t (cur * cur + cur + 2) 1 cur).1.1 (findBoundL av t (cur * cur + cur + 2) 1 cur).1.2 + 5 :=
+  searchL_requests_min_missing av cur min t hmin h1
+
 /-- `clog` is the ceiling of the binary logarithm -/
 theorem clog_spec (n k : Nat) (hn : 1 ≤ n) : clog n ≤ k ↔ n ≤ 2 ^ k := clog_le_iff n k hn
 
